@@ -54,10 +54,15 @@ def dens_case(ctx, rho, z, st, ft, kind, tag) -> None:
 
 
 def profile(rng, n):
-    kind = rng.choice(["down", "up", "downup", "stationary", "repeated", "random"])
+    kind = rng.choice(["down", "up", "downup", "stationary", "repeated", "random", "deep-fine"])
     z, cur = [], rng.choice([0.0, 5.0, 100.0])
+    if kind == "deep-fine":
+        cur = rng.choice([2500.0, 6000.0, 10900.0])  # centimetre steps at abyssal depths are depth changes all the same
+    fine = rng.choice([0.015625, 0.03125, -0.015625])
     for k in range(n):
-        if kind == "down":
+        if kind == "deep-fine":
+            cur += fine if rng.random() < 0.8 else 0.0
+        elif kind == "down":
             cur += rng.choice([1.0, 2.5])
         elif kind == "up":
             cur -= rng.choice([1.0, 2.5])
